@@ -111,7 +111,7 @@ class Event:
 
 
 class State:
-    __slots__ = ("env", "facts", "events", "exc", "depth", "stack", "defs")
+    __slots__ = ("env", "facts", "events", "exc", "depth", "stack", "defs", "outer")
 
     def __init__(self, env=None, facts=None, events=(), exc=None, depth=0, stack=(), defs=None):
         self.defs: Dict[str, ast.AST] = defs if defs is not None else {}  # local name -> defining expression (flow-sensitive)
@@ -121,9 +121,15 @@ class State:
         self.exc = exc  # exception currently being handled (for bare raise)
         self.depth = depth
         self.stack = stack  # tuple of FuncInfo being inlined
+        # inside a generator that feeds a for loop: the suspended consumer's (env, defs, facts-or-None, return value)
+        self.outer = None
 
     def copy(self) -> "State":
-        return State(dict(self.env), dict(self.facts), self.events, self.exc, self.depth, self.stack, dict(self.defs))
+        c = State(dict(self.env), dict(self.facts), self.events, self.exc, self.depth, self.stack, dict(self.defs))
+        if self.outer is not None:
+            oe, od, of, rv = self.outer
+            c.outer = (dict(oe), dict(od), dict(of) if of is not None else None, rv)
+        return c
 
     def add(self, ev: Event) -> None:
         self.events = self.events + (ev,)
@@ -240,7 +246,10 @@ class Walker:
         unroll: int = 2,
         exact_loops: bool = False,
         store_hook: Callable[[ast.AST, AVal, "State"], None] = None,
+        inline_by_name: bool = False,
     ):
+        self.inline_by_name = inline_by_name
+        self.cur_recv = None
         self.prog = prog
         self.store_hook = store_hook
         self.resolver = resolver or Resolver(prog)
@@ -262,6 +271,8 @@ class Walker:
         # path with the pseudo exception "UnrollLimit" instead of being summarised
         self.exact_loops = exact_loops
         self._budget = 0
+        self._gen_stack = []   # yield handlers of the generators being run for a for loop
+        self._gen_bodies = []  # the bodies of those for loops
         self.frame: Tuple[Optional[FuncInfo], Optional[ClassInfo]] = (None, None)
 
     # ------------------------------------------------------------------ API
@@ -597,6 +608,24 @@ class Walker:
         return out
 
     def _havoc(self, st: State, body):
+        if st.outer is not None and self._gen_bodies:
+            # a loop inside a generator: what the consuming loop body assigns is forgotten as well
+            oe, od, of, rv = st.outer
+            for cbody in self._gen_bodies:
+                for key in assigned_names(cbody):
+                    try:
+                        node = ast.parse(key, mode="eval").body
+                    except SyntaxError:
+                        continue
+                    if isinstance(node, ast.Name):
+                        oe[node.id] = UNK
+                        od.pop(node.id, None)
+                    else:
+                        self._kill(st, node)
+                        if of is not None:
+                            for k in list(of):
+                                if k == key or _mentions(k, key):
+                                    del of[k]
         for key in assigned_names(body):
             try:
                 node = ast.parse(key, mode="eval").body
@@ -679,6 +708,14 @@ class Walker:
         return self._loop(st, stmt.body, stmt.orelse, test_fn, lambda s, it: None)
 
     def s_For(self, stmt, st):
+        it = stmt.iter
+        if isinstance(it, ast.Call) and dotted(it.func) == "iter" and len(it.args) == 2 and not it.keywords:
+            return self._for_iter_sentinel(stmt, st)
+        if isinstance(it, ast.Call) and st.depth <= self.max_depth:
+            tgt = self.resolver.resolve(it, self.frame[0], self.frame[1])
+            if tgt.kind == "repo" and len(tgt.funcs) == 1 and tgt.funcs[0] is not None and not tgt.by_name and _is_generator(tgt.funcs[0]) \
+                    and tgt.funcs[0] not in st.stack:
+                return self._for_generator(stmt, st, tgt)
         out = []
         for r in self.eval(stmt.iter, st):
             if r[0] == "raise":
@@ -719,6 +756,207 @@ class Walker:
 
     s_AsyncFor = s_For
 
+    def _for_iter_sentinel(self, stmt, st):
+        """for x in iter(f, sentinel):  ==  while True: x = f(); if x == sentinel: break; <body>"""
+        it = stmt.iter
+        callnode = getattr(stmt, "_pgv_itercall", None)
+        if callnode is None:
+            f = it.args[0]
+            if isinstance(f, ast.Call) and (dotted(f.func) or "").split(".")[-1] == "partial" and f.args:
+                callnode = ast.Call(func=f.args[0], args=list(f.args[1:]), keywords=list(f.keywords))
+            elif isinstance(f, ast.Lambda) and not f.args.args:
+                callnode = f.body
+            else:
+                callnode = ast.Call(func=f, args=[], keywords=[])
+            ast.copy_location(callnode, it)
+            ast.fix_missing_locations(callnode)
+            stmt._pgv_itercall = callnode
+        sent = it.args[1]
+        key = "__iterval%d" % id(stmt)
+
+        def test_fn(s, n):
+            res = []
+            for r in self.eval(callnode, s):
+                if r[0] == "raise":
+                    res.append((("raise", r[1]), r[2]))
+                    continue
+                v = r[1]
+                for r2 in self.eval(sent, r[2]):
+                    if r2[0] == "raise":
+                        res.append((("raise", r2[1]), r2[2]))
+                        continue
+                    sv, s3 = r2[1], r2[2]
+                    s3.env[key] = v
+                    if v.kind == "const" and sv.kind == "const":
+                        res.append((v.value != sv.value, s3))
+                    else:
+                        res.append((None, s3))
+            return res
+
+        def bind_fn(s, n):
+            v = s.env.pop(key, UNK)
+            self._bind(s, stmt.target, v, stmt, defexpr=callnode)
+
+        outs = self._loop(st, stmt.body, stmt.orelse, test_fn, bind_fn)
+        for k, v, s in outs:
+            s.env.pop(key, None)
+        return outs
+
+    def _for_generator(self, stmt, st, target):
+        """for x in gen(...): the generator's body is walked; at each `yield v` the loop body runs with x = v."""
+        call = stmt.iter
+        callee = target.funcs[0]
+        caller_frame = self.frame
+        argnodes = [a.value if isinstance(a, ast.Starred) else a for a in call.args]
+        kwnodes = [k.value for k in call.keywords]
+        pre = []
+        if isinstance(call.func, ast.Attribute) and dotted(call.func.value) not in ("self", "super()"):
+            pre.append(call.func.value)
+        npre = len(pre)
+        results = []
+
+        def cont(vals, s):
+            args = vals[npre:npre + len(argnodes)]
+            kws = dict(zip([k.arg for k in call.keywords], vals[npre + len(argnodes):]))
+            s.add(Event("call", call, target, self.frame, {"args": list(args), "kws": kws}))
+            env, is_self, callee_concrete, facts, pdefs = self._callee_setup(call, target, callee, args, kws, s)
+            inner = State(env=env, facts=facts, events=s.events, exc=None, depth=s.depth + 1, stack=s.stack + (callee,), defs=pdefs)
+            inner.outer = (dict(s.env), dict(s.defs), None if is_self else dict(s.facts), None)
+
+            def handler(v, gs):
+                oe, od, of, _rv = gs.outer
+                cs = State(env=dict(oe), facts=gs.facts if is_self else {**of, **_scratch(gs.facts)}, events=gs.events, exc=s.exc, depth=s.depth,
+                           stack=s.stack, defs=dict(od))
+                cs.outer = s.outer
+                sf, sg, sb = self.frame, self._gen_stack, self._gen_bodies
+                self.frame, self._gen_stack, self._gen_bodies = caller_frame, sg[:-1], sb[:-1]
+                try:
+                    self._bind(cs, stmt.target, v, stmt)
+                    res = self.exec_block(stmt.body, cs)
+                finally:
+                    self.frame, self._gen_stack, self._gen_bodies = sf, sg, sb
+                outs = []
+                for k, val, cs2 in res:
+                    ng = State(env=dict(gs.env), facts=cs2.facts if is_self else {**gs.facts, **_scratch(cs2.facts)}, events=cs2.events, exc=gs.exc, depth=gs.depth,
+                               stack=gs.stack, defs=dict(gs.defs))
+                    ng.outer = (cs2.env, cs2.defs, None if is_self else cs2.facts, val if k == "return" else None)
+                    if k in ("next", "continue"):
+                        outs.append(("val", Const(None), ng))
+                    elif k == "break":
+                        outs.append(("raise", "<GenBreak>", ng))
+                    elif k == "return":
+                        outs.append(("raise", "<GenReturn>", ng))
+                    elif k == "raise":
+                        outs.append(("raise", "<GenRaise>:" + str(val), ng))
+                    else:
+                        outs.append(("raise", "<GenOther>:" + str(k), ng))
+                return outs
+
+            saved_frame = self.frame
+            self.frame = (callee, callee_concrete)
+            self._gen_stack = self._gen_stack + [handler]
+            self._gen_bodies = self._gen_bodies + [stmt.body]
+            try:
+                outs = self.exec_block(callee.node.body, inner)
+            finally:
+                self.frame = saved_frame
+                self._gen_stack = self._gen_stack[:-1]
+                self._gen_bodies = self._gen_bodies[:-1]
+            res = []
+            for k, v, gs in outs:
+                oe, od, of, rv = gs.outer if gs.outer is not None else (s.env, s.defs, None if is_self else s.facts, None)
+                back = State(env=dict(oe), facts=gs.facts if is_self else {**(of if of is not None else s.facts), **_scratch(gs.facts)}, events=gs.events, exc=s.exc,
+                             depth=s.depth, stack=s.stack, defs=dict(od))
+                back.outer = s.outer
+                if k == "raise" and str(v) == "<GenBreak>":
+                    res.append(("next", None, back))
+                elif k == "raise" and str(v) == "<GenReturn>":
+                    res.append(("return", rv if rv is not None else Const(None), back))
+                elif k == "raise" and str(v).startswith("<GenRaise>:"):
+                    res.append(("raise", str(v)[len("<GenRaise>:"):], back))
+                elif k == "raise":
+                    res.append(("raise", v, back))
+                else:
+                    res.extend(self.exec_block(stmt.orelse, back))
+            return res
+
+        for r in self._seq(pre + argnodes + kwnodes, st, lambda vals, s: [("gen", cont(vals, s), s)]):
+            if r[0] == "raise":
+                results.append(r)
+            else:
+                results.extend(r[1])
+        return results
+
+    def e_Yield(self, node, st):
+        if not self._gen_stack:
+            return self._generic_expr(node, st)
+        handler = self._gen_stack[-1]
+        out = []
+        for r in (self.eval(node.value, st) if node.value is not None else [("val", Const(None), st)]):
+            if r[0] == "raise":
+                out.append(r)
+                continue
+            out.extend(handler(r[1], r[2]))
+        return out
+
+    def _callee_setup(self, node, target, callee, args, kws, s):
+        """Parameter binding for walking a callee's body (shared by call inlining and generator loops)."""
+        func, concrete = self.frame
+        is_self = target.bound_cls is not None
+        explicit_self = False
+        if not is_self and callee.cls is not None and target.kind == "repo" and args is not None \
+                and node.args and dotted(node.args[0]) == "self":
+            is_self = True
+            explicit_self = True
+        params = list(callee.params)
+        env: Dict[str, AVal] = {}
+        avals = list(args)
+        if callee.cls is not None and target.kind != "ctor":
+            if explicit_self:
+                avals = avals[1:]
+            params = params[1:] if params and params[0] in ("self", "cls") else params
+        elif target.kind == "ctor":
+            params = params[1:] if params else params
+        for p_, v in zip(params, avals):
+            env[p_] = v
+        for k, v in kws.items():
+            if k in params:
+                env[k] = v
+        a = callee.node.args
+        all_params = [x.arg for x in a.posonlyargs + a.args]
+        for p_, d in zip(all_params[len(all_params) - len(a.defaults):], a.defaults):
+            if p_ not in env and isinstance(d, ast.Constant):
+                env[p_] = Const(d.value)
+        for p_, d in zip([x.arg for x in a.kwonlyargs], a.kw_defaults):
+            if p_ not in env and isinstance(d, ast.Constant):
+                env[p_] = Const(d.value)
+        if is_self:
+            callee_concrete = target.bound_cls or concrete
+            facts = s.facts
+        else:
+            callee_concrete = callee.cls
+            facts = {k: v for k, v in s.facts.items() if not k.startswith("self.") and "self." not in k}
+        pdefs = {}
+        if node is not None and (is_self or callee.cls is None):
+            try:
+                from .facts import expand_ast as _xa
+
+                argnodes = list(node.args)
+                if explicit_self:
+                    argnodes = argnodes[1:]
+                callee_locals = _callee_locals(callee)
+                pairs = list(zip(params, argnodes)) + [(k.arg, k.value) for k in node.keywords if k.arg in params]
+                for p_, a_ in pairs:
+                    if isinstance(a_, ast.Starred):
+                        continue
+                    ea = _xa(a_, self.frame[0], s.defs) if s.defs else a_
+                    free = _names_of(ea) - {"self"}
+                    if not (free & callee_locals) and (is_self or "self" not in _names_of(ea)):
+                        pdefs[p_] = ea
+            except Exception:
+                pdefs = {}
+        return env, is_self, callee_concrete, facts, pdefs
+
     def s_With(self, stmt, st):
         cur = [st]
         out = []
@@ -748,7 +986,9 @@ class Walker:
         body_out = self.exec_block(stmt.body, st)
         after = []
         for k, v, s in body_out:
-            if k == "raise":
+            if k == "raise" and str(v).startswith("<Gen"):
+                after.append((k, v, s))
+            elif k == "raise":
                 handled = False
                 for h in stmt.handlers:
                     if any(exc_matches(str(v), n) for n in handler_names(h)):
@@ -961,6 +1201,8 @@ class Walker:
             a = self.prog.class_attr(self.frame[1], node.attr)
             if a is not None and not _attr_assigned_anywhere(self.prog, self.frame[1], node.attr):
                 lv = _literal(a)
+                if lv is NOCONST:
+                    lv = _function_table(self.prog, a, self.frame[1])
                 if lv is not NOCONST:
                     return [("val", Const(lv), st)]
         if d and self.frame[0] is not None:
@@ -1181,7 +1423,7 @@ class Walker:
             parts.append(g.iter)
         def cont(vals, s):
             s2 = s
-            if self.exact_loops and len(node.generators) == 1 and not isinstance(node, (ast.DictComp, ast.GeneratorExp)) \
+            if self.exact_loops and len(node.generators) == 1 and not isinstance(node, ast.DictComp) \
                     and vals[0].kind == "const" and isinstance(vals[0].value, (list, tuple, str, bytes)) \
                     and len(vals[0].value) <= 64 and not node.generators[0].is_async:
                 # evaluator mode: the comprehension over a known sequence is computed element by element
@@ -1252,6 +1494,8 @@ class Walker:
         target = self.resolver.resolve(node, func, concrete)
         if target.kind == "unknown" and isinstance(node.func, ast.Name):
             held = st.env.get(node.func.id)
+            if held is not None and held.kind == "const" and isinstance(held.value, FuncInfo):
+                held = Ref(held.value)
             if held is not None and held.kind == "ref":
                 obj = held.value
                 if isinstance(obj, ClassInfo):
@@ -1299,6 +1543,19 @@ class Walker:
                     return [("raise", type(exc).__name__, s)]
                 except Exception:
                     pass
+            if isinstance(node.func, ast.Attribute) and node.func.attr in ("get", "keys", "values", "items") and len(recv) == 1 \
+                    and recv[0].kind == "const" and isinstance(recv[0].value, dict) and all(a.kind == "const" for a in args) and not kws:
+                try:
+                    r_ = getattr(recv[0].value, node.func.attr)(*[a.value for a in args])
+                    return [("val", Const(list(r_) if node.func.attr != "get" else r_), s)]
+                except Exception:
+                    pass
+            if isinstance(node.func, ast.Attribute) and node.func.attr in ("search", "match", "fullmatch", "sub", "split", "findall") and len(recv) == 1 \
+                    and recv[0].kind == "const" and type(recv[0].value).__name__ == "Pattern" and args and all(a.kind == "const" for a in args) and not kws:
+                try:
+                    return [("val", Const(getattr(recv[0].value, node.func.attr)(*[a.value for a in args])), s)]
+                except Exception:
+                    pass
             if isinstance(node.func, ast.Attribute) and node.func.attr in ("group", "groups", "start", "end", "span", "groupdict") and len(recv) == 1 \
                     and recv[0].kind == "const" and type(recv[0].value).__name__ == "Match" and all(a.kind == "const" for a in args) and not kws:
                 try:
@@ -1306,7 +1563,21 @@ class Walker:
                 except (IndexError, ValueError) as exc:
                     s.add(Event("raise", node, type(exc).__name__, self.frame, "implicit"))
                     return [("raise", type(exc).__name__, s)]
-            return self._do_call(node, target, args, kws, s)
+            self.cur_recv = recv[0] if npre == 1 and isinstance(node.func, ast.Attribute) else (
+                s.env.get("self") if isinstance(node.func, ast.Attribute) and dotted(node.func.value) == "self" else None)
+            tgt = target
+            if tgt.kind == "unknown" and npre == 1 and not isinstance(node.func, (ast.Name, ast.Attribute)) \
+                    and recv[0].kind in ("const", "ref") and isinstance(recv[0].value, FuncInfo):
+                tgt = Target("repo", norm(node.func), funcs=[recv[0].value])
+            # a NamedTuple class of the repository called on constants gives that tuple
+            if tgt.kind == "ctor" and tgt.cls is not None and all(a.kind == "const" for a in args) and all(v.kind == "const" for v in kws.values()):
+                nt = _namedtuple_type(tgt.cls)
+                if nt is not None:
+                    try:
+                        return [("val", Const(nt(*[a.value for a in args], **{k: v.value for k, v in kws.items()})), s)]
+                    except TypeError:
+                        pass
+            return self._do_call(node, tgt, args, kws, s)
 
         return self._seq(pre + argnodes + kwnodes, st, cont)
 
@@ -1328,6 +1599,25 @@ class Walker:
             try:
                 return [("val", Const({"tuple": tuple, "list": list, "set": set, "frozenset": frozenset, "sorted": sorted}[name.split(".")[-1]](args[0].value)), s)]
             except TypeError:
+                pass
+        if name in ("builtins.any", "builtins.all", "builtins.sum", "builtins.min", "builtins.max", "builtins.bool", "builtins.reversed", "builtins.enumerate",
+                    "builtins.zip", "builtins.dict") and args and all(a.kind == "const" for a in args) and not kws \
+                and isinstance(args[0].value, (tuple, list, set, frozenset, dict, str, bytes, int, bool, type(None))):
+            try:
+                import builtins as _b
+
+                r_ = getattr(_b, name.split(".")[-1])(*[a.value for a in args])
+                if name.split(".")[-1] in ("reversed", "enumerate", "zip"):
+                    r_ = list(r_)
+                return [("val", Const(r_), s)]
+            except Exception:
+                pass
+        if name == "re.compile" and args and all(a.kind == "const" for a in args) and not kws and isinstance(args[0].value, (str, bytes)):
+            import re as _re
+
+            try:
+                return [("val", Const(_re.compile(*[a.value for a in args])), s)]
+            except Exception:
                 pass
         if name == "builtins.len" and args and args[0].kind == "const":
             try:
@@ -1389,19 +1679,19 @@ class Walker:
                 s_r = s.copy()
                 s_r.add(Event("raise", node, exc, self.frame, "implicit"))
                 out.append(("raise", exc, s_r))
-        # -- inlining
-        if target.kind in ("repo", "ctor") and len(target.funcs) == 1 and not target.by_name:
-            callee = target.funcs[0]
-            if callee is not None and s.depth < self.max_depth and callee not in s.stack \
-                    and self.inline(callee, target, s.depth):
-                out.extend(self._inline(node, target, callee, args, kws, s))
-                return out
-        # -- summaries
+        # -- summaries given by the rule take precedence over walking the callee
         val = None
         if self.call_value is not None:
             # the evaluated arguments of the call being summarised are available to the hook as walker.cur_args / cur_kws
             self.cur_args, self.cur_kws = args, kws
             val = self.call_value(node, target, s)
+        # -- inlining
+        if val is None and target.kind in ("repo", "ctor") and len(target.funcs) == 1 and (not target.by_name or self.inline_by_name):
+            callee = target.funcs[0]
+            if callee is not None and s.depth < self.max_depth and callee not in s.stack \
+                    and self.inline(callee, target, s.depth):
+                out.extend(self._inline(node, target, callee, args, kws, s))
+                return out
         if val is None and target.kind == "ctor":
             val = TRUTHY
         # a non-inlined repo call may assign self attributes: forget facts about them
@@ -1445,6 +1735,9 @@ class Walker:
         for k, v in kws.items():
             if k in params:
                 env[k] = v
+        if not is_self and callee.cls is not None and target.kind == "repo" and callee.params[:1] == ["self"] and self.cur_recv is not None \
+                and isinstance(node.func, ast.Attribute):
+            env["self"] = self.cur_recv
         # defaults
         a = callee.node.args
         defaults = a.defaults
@@ -1499,6 +1792,7 @@ class Walker:
                 back.facts = si.facts
             else:
                 back.facts = dict(s.facts)
+                back.facts.update(_scratch(si.facts))
             if k == "raise":
                 results.append(("raise", v, back))
             elif k == "return":
@@ -1521,6 +1815,100 @@ PURE_EXT_FUNCS = {"os.path.join", "os.path.normpath", "os.path.dirname", "os.pat
 EXT_CONSTS = {
     "socket.MSG_PEEK": "<socket.MSG_PEEK>",
 }
+
+
+def _function_table(prog, node, cls):
+    """A class-level dict/tuple literal whose values name functions defined in the class body (a dispatch table):
+    {key: FuncInfo}; NOCONST otherwise."""
+    def val(v):
+        lit = _literal(v)
+        if lit is not NOCONST:
+            return lit
+        if isinstance(v, ast.Name):
+            for c in prog.mro(cls):
+                if v.id in c.methods:
+                    return c.methods[v.id]
+            f = cls.module.functions.get(v.id)
+            if f is not None:
+                return f
+        if isinstance(v, ast.Tuple):
+            vals = [val(e) for e in v.elts]
+            return NOCONST if any(x is NOCONST for x in vals) else tuple(vals)
+        return NOCONST
+    if isinstance(node, ast.Dict) and all(k is not None for k in node.keys):
+        ks = [_literal(k) for k in node.keys]
+        vs = [val(v) for v in node.values]
+        if any(x is NOCONST for x in ks + vs):
+            return NOCONST
+        try:
+            return dict(zip(ks, vs))
+        except TypeError:
+            return NOCONST
+    if isinstance(node, (ast.Tuple, ast.List)):
+        vs = [val(v) for v in node.elts]
+        return NOCONST if any(x is NOCONST for x in vs) else tuple(vs)
+    return NOCONST
+
+
+def _namedtuple_type(cls):
+    """A collections.namedtuple standing for a repository class derived from typing.NamedTuple (fields in declaration
+    order, constant defaults); None for any other class."""
+    cached = getattr(cls, "_pgv_nt", False)
+    if cached is not False:
+        return cached
+    nt = None
+    if any(isinstance(b, str) and b.split(".")[-1] == "NamedTuple" for b in cls.bases) and not cls.methods.get("__new__"):
+        fields, defaults = [], []
+        for st_ in cls.node.body:
+            if isinstance(st_, ast.AnnAssign) and isinstance(st_.target, ast.Name):
+                fields.append(st_.target.id)
+                if st_.value is not None:
+                    lit = _literal(st_.value)
+                    if lit is NOCONST:
+                        fields = None
+                        break
+                    defaults.append(lit)
+                elif defaults:
+                    fields = None
+                    break
+        if fields:
+            import collections
+
+            try:
+                nt = collections.namedtuple(cls.name, fields, defaults=defaults or None)
+            except Exception:
+                nt = None
+    try:
+        cls._pgv_nt = nt
+    except Exception:
+        pass
+    return nt
+
+
+def _scratch(facts) -> dict:
+    """Bookkeeping entries of an evaluation (keys starting with "__"): they belong to the run, not to a frame."""
+    return {k: v for k, v in facts.items() if k.startswith("__")}
+
+
+def _is_generator(func) -> bool:
+    """Does the function's own body (nested functions excluded) contain a yield?"""
+    cached = getattr(func, "_pgv_isgen", None)
+    if cached is not None:
+        return cached
+    found = False
+    stack = list(func.node.body)
+    while stack and not found:
+        n = stack.pop()
+        if isinstance(n, (ast.FunctionDef, ast.AsyncFunctionDef, ast.Lambda, ast.ClassDef)):
+            continue
+        if isinstance(n, (ast.Yield, ast.YieldFrom)):
+            found = True
+        stack.extend(ast.iter_child_nodes(n))
+    try:
+        func._pgv_isgen = found
+    except Exception:
+        pass
+    return found
 
 
 def _mentions(text: str, key: str) -> bool:
@@ -1668,9 +2056,26 @@ def _literal(node):
     if isinstance(node, ast.Call) and isinstance(node.func, ast.Name) and node.func.id in ("frozenset", "tuple", "set", "list") \
             and len(node.args) == 1 and not node.keywords:
         return _literal(node.args[0])
+    if isinstance(node, ast.Dict) and all(k is not None for k in node.keys):
+        ks = [_literal(k) for k in node.keys]
+        vs = [_literal(v) for v in node.values]
+        if any(v is NOCONST for v in ks + vs):
+            return NOCONST
+        try:
+            return dict(zip(ks, vs))
+        except TypeError:
+            return NOCONST
     if isinstance(node, ast.UnaryOp) and isinstance(node.op, ast.USub) and isinstance(node.operand, ast.Constant) \
             and isinstance(node.operand.value, (int, float)):
         return -node.operand.value
+    if isinstance(node, ast.Call) and dotted(node.func) == "re.compile" and node.args and not node.keywords \
+            and all(isinstance(a, ast.Constant) for a in node.args) and isinstance(node.args[0].value, (str, bytes)):
+        import re as _re
+
+        try:
+            return _re.compile(*[a.value for a in node.args])
+        except Exception:
+            return NOCONST
     return NOCONST
 
 
